@@ -126,6 +126,11 @@ class Stage:
             t0 = time.time()
             r = fn(self.dir)
             r["wall_s"] = round(time.time() - t0, 2)
+            if r.get("unavailable"):
+                # a stage that could not run here is not worth remembering: try again next time
+                shutil.rmtree(self.dir, ignore_errors=True)
+                r["_cached"] = False
+                return r
             with open(self.result + ".tmp", "w") as f:
                 json.dump(r, f)
             os.replace(self.result + ".tmp", self.result)
@@ -134,7 +139,7 @@ class Stage:
             return r
 
 
-def prune_cache(keep=6):
+def prune_cache(keep=14):
     try:
         ents = [(os.path.getmtime(os.path.join(CACHE, d)), d) for d in os.listdir(CACHE)
                 if os.path.isdir(os.path.join(CACHE, d))]
